@@ -24,18 +24,22 @@ BIG = 100000.0
 class Script:
     """The scripted sender: well-formed PDUs of one transaction, as bytes."""
 
-    def __init__(self, w, t):
+    def __init__(self, w, t, idw=None, seq_off=0, dst=None):
         c = w.cfg
         self.w = w
         syn = Synth(w, perturb=0)
-        seq = [7, 0, 200][t.choose(3, "script seq")] % (1 << (8 * c.seqw))
+        if idw is not None:
+            syn.idw = idw
+        if dst is not None:
+            syn.dst_req = dst
+        seq = ([7, 0, 200][t.choose(3, "script seq")] + seq_off) % (1 << (8 * c.seqw))
         self.seq = seq
         data = w.src_bytes
         self.size = len(data)
         s = max(c.eff_seg, 1)
         self.s = s
         conf, _, _ = syn.conf(t, "MD", seq, pert=False)
-        self.md = bytes(MetadataPdu(conf, MetadataParams(c.closure, c.ck, self.size, w.src_path, w.dst_req)).pack())
+        self.md = bytes(MetadataPdu(conf, MetadataParams(c.closure, c.ck, self.size, w.src_path, dst or w.dst_req)).pack())
         self.tiles = []
         off = 0
         while off < self.size:
@@ -72,6 +76,32 @@ def grid(t, attach=None, force=None) -> Ctx:
     ctx = Ctx(w, "grid")
     w.link.hook = lambda src, dst, em, key: ("drop",)  # the sender is a script
     w.max_events = 100000
+    # a quarter of the runs: the receiver already served a transaction of this sender that used narrower entity ids
+    # (smaller PDU headers) and went through a deferred NAK procedure; not judged (the oracle is attached afterwards)
+    if t.choose(4, "earlier grid transaction") == 3 and cfg.size > 0:
+        pre = Script(w, t, idw=1, seq_off=11, dst="dst/prev.bin")
+        w.deliver(w.b, pre.md)
+        for i, x in enumerate(pre.tiles):
+            if i % 2 == 0:
+                w.deliver(w.b, x[2])
+        w.deliver(w.b, pre.eof)
+        for _ in range(3):
+            w.clock.now_ms += 2
+            w.poll(w.b, "dst")
+        for x in pre.tiles:
+            w.clock.now_ms += 1
+            w.deliver(w.b, x[2])
+        for _ in range(4):
+            w.clock.now_ms += 2
+            w.poll(w.b, "dst")
+            if w.b.handlers["dst"].step.name == "WAITING_FOR_FINISHED_ACK":
+                w.deliver(w.b, pre.ack_fin)
+        if w.b.handlers["dst"].state.name != "IDLE":
+            w.b.handlers["dst"].reset()
+            while w.b.handlers["dst"].get_next_packet() is not None:
+                pass
+        w.clock.now_ms += 50
+        w.probe("grid_earlier_transaction")
     if attach is not None:
         for m in attach(ctx):
             w.monitors.append(m)
